@@ -12,8 +12,9 @@ Chains == ndJsonDeserialize("chains.ndjson")
 Obs    == ndJsonDeserialize("cobs.ndjson")
 
 DefaultsObs == [i \in DOMAIN Chains[1].defaults |-> Chains[1].defaults[i].m]
+SubDefaultsObs == [i \in DOMAIN Chains[1].subdefaults |-> Chains[1].subdefaults[i].m]
 
-StepOfJ(s) == [op |-> s.op, mode |-> s.mode, vals |-> s.vals.m, chart |-> s.chart, target |-> s.target, fail |-> s.fail]
+StepOfJ(s) == [op |-> s.op, mode |-> s.mode, vals |-> s.vals.m, chart |-> s.chart, target |-> s.target, fail |-> s.fail, atomic |-> s.atomic, auto |-> s.auto]
 StepsOfJ(j) == [n \in DOMAIN j.steps |-> StepOfJ(j.steps[n])]
 
 EchoOK(j, o) == o.id = j.id /\ o.echo.steps = j.steps /\ o.echo.defaults = Chains[1].defaults /\ o.panic = ""
@@ -26,7 +27,9 @@ StepRan(st, o, n) ==
       d    == DepAt(st, n + 1) IN
   /\ o.steps[n].ok = ~Fails(st[n])
   /\ Len(revs) = n /\ \A r \in 1..n : revs[r].rev = r
-  /\ \A r \in 1..n : (revs[r].status = "deployed") = (r = d)
+  \* (after an atomic upgrade the harness shows revisions 1..n only: its own rollback, revision
+  \* n + 1, has already superseded the deployed one and is shown at the next step)
+  /\ st[n].atomic \/ \A r \in 1..n : (revs[r].status = "deployed") = (r = d)
   /\ Fails(st[n]) => revs[n].status = "failed"
 
 \* the recorded values of revisions 1..n as read back after step n
@@ -67,7 +70,8 @@ Report(i) ==
               \A x \in DOMAIN cs :
                 IF cs[x].v THEN TRUE
                 ELSE PrintT(<<"OBSVIOL", i, cs[x].n, n, j.id,
-                              IF L18Lineage(st, ObsCfgs(o, n), n) THEN "L18" ELSE "-">>)
+                              IF L18Lineage(st, ObsCfgs(o, n), n) THEN "L18"
+                              ELSE IF SubLostLineage(st, n) THEN "SUBDEP" ELSE "-">>)
 Next == /\ l < Len(Obs)
         /\ l' = l + 1
         /\ Report(l + 1)
